@@ -79,3 +79,15 @@ def request_roundtrip_guard(m: Model, r: Report, rid: str) -> None:
     pd = m.require_function(f"{SERVICE}.UDSRequest.parse_dynamic")
     r.check(any(isinstance(n, ast.Return) and n.value is not None and ast.unparse(n.value) == f"RawRequest({pd.params()[1] if len(pd.params()) > 1 else 'pdu'})"
                 for n in ast.walk(pd.node)), rid, f"{pd.qualname}#raw-keeps-bytes", "the raw fallback must wrap the unmodified bytes", loc=pd.loc)
+
+
+def parse_dynamic_total(m: Model, r: Report, rid: str) -> None:
+    """UDSRequest.parse_dynamic never raises: every failure of a typed parser (ValueError, IndexError, struct.error and the
+    AssertionError of the round-trip check) ends in RawRequest(pdu)."""
+    SERVICE = "gallia.services.uds.core.service"
+    pd = m.require_function(f"{SERVICE}.UDSRequest.parse_dynamic")
+    hs = [h for t in ast.walk(pd.node) if isinstance(t, ast.Try) for h in t.handlers]
+    r.check(len(hs) == 1 and hs[0].type is not None and ast.unparse(hs[0].type) in ("Exception", "BaseException") and
+            any(isinstance(s, ast.Return) and ast.unparse(s.value) == "RawRequest(pdu)" for s in hs[0].body), rid, f"{pd.qualname}#raw-fallback",
+            f"the dynamic request parser catches {[ast.unparse(h.type) if h.type else '<bare>' for h in hs]}: every failure of a typed parser (incl. the "
+            "round-trip AssertionError) must fall back to RawRequest, otherwise the server raises and drops the connection", loc=pd.loc)
